@@ -38,6 +38,8 @@ def handle(c):
                 'in_set': bool(e in {f}), 'in_dict': bool(e in {f: 1})}
     if k == 'uniq':
         # pairwise distinct objects whose equality (and hash) is the given number: which OBJECT is returned is observed
+        # (an elementwise EQUAL sequence of other objects is de-duplicated first: the answer must be made of the objects passed in)
+        unique_in_order([Tok(v, 1000 + i) for i, v in enumerate(c['l'])])
         items = [Tok(v, i) for i, v in enumerate(c['l'])]
         out = unique_in_order(items)
         return {'r': [t.v for t in out], 'pos': [t.i for t in out]}
